@@ -423,6 +423,8 @@ _TEMPLATES = [(re.compile(p, re.S), k) for p, k in TEMPLATES]
 ANNOT_STAGE_KINDS = {'annotNotExist', 'annotNotRecognized', 'aliasAnnotUnsupported', 'deprecatedTwice', 'omittedTwice',
                      'previewTwice', 'redactorTwice', 'deprecatedPreview', 'redactorOnAliasRef', 'redactorAlready',
                      'redactorOnUser'}
+# error kinds of the route-attribute stage (_validate_stone_cfg, Struct / StructField.check_attr_repr)
+ATTR_STAGE_KINDS = {'cfgRoutes', 'cfgNotRoute', 'attrNotSettable', 'attrValue', 'attrMissing', 'attrUnknown'}
 
 # the model's recursion bounds / impossible states: never a verdict
 NO_VERDICT = ('outOfFuel', 'fuelAlias', 'fuelAncestors', 'fuelImports', 'internal')
@@ -805,11 +807,13 @@ def judge_case(ck, files, origin, asts, reply, real=None, flags=()):
         ck.agree('comp.compile')
     elif rk in ambiguous:
         ck.hist('comp.not_judged.ambiguous_message', rk)
-    elif (rk in ANNOT_STAGE_KINDS) != (mk in ANNOT_STAGE_KINDS):
+    elif ((rk in ANNOT_STAGE_KINDS) != (mk in ANNOT_STAGE_KINDS) and mk not in ATTR_STAGE_KINDS) or \
+            (rk in ATTR_STAGE_KINDS and mk not in ATTR_STAGE_KINDS):
         # both refuse. The code applies annotations while it creates each member, the model tests them in one stage
         # after the type passes (the MANIFEST note says so): a spec with an annotation violation AND a type violation
-        # gets a different FIRST message. The verdict (refused) agrees; which of several violations is reported is
-        # not judged.
+        # gets a different FIRST message. Likewise the code checks the attributes of each route right after its types
+        # (before the next route, before it validates redactors), the model in a last stage after the annotations.
+        # The verdict (refused) agrees; which of several violations is reported is not judged.
         ck.hist('comp.not_judged.two_violations_other_stage_first', '%s/%s' % (rk, mk))
         ck.agree('comp.compile')
     else:
